@@ -153,6 +153,23 @@ def run(ctx):
             s = directed_stream(rng, name, direction)
             if s[1]:
                 check_streams(ctx, rep, name, direction, [s])
+    # the largest legal frames, two per stream
+    for name in framelib.STREAM_FRAMERS:
+        for direction in ('req', 'resp'):
+            frames, msgs = [], []
+            big = [m for m in msggen.max_size_msgs(rng, direction) if in_range(direction, m)]
+            rng.shuffle(big)
+            for m in big:
+                f = framelib.real_build(name, direction, m, 1, rng.randrange(65536), 0)
+                if isinstance(f, dict) or not frame_ok(name, direction, m, f):
+                    continue
+                frames.append(f)
+                msgs.append(m)
+                if len(frames) == 2:
+                    break
+            if frames:
+                check_streams(ctx, rep, name, direction, [(1, frames, msgs)])
+                rep.hist['max-size-stream:%s:%s' % (name, direction)] += 1
     rounds = ctx.scale(6, 120)
     for _ in range(rounds):
         if ctx.time_left() < 20:
